@@ -499,3 +499,15 @@ def c16(ctx):
     ctx.notes["distinct_nontrivial"] = len(set(cases))
     ctx.notes["rule"] = "one case per request class of MC_Validate (all distinct by construction) plus seeded mutated wire messages; non-trivial = every class exercises at least one validation branch or the success path"
     ctx.gv("request-classes", "Trace_Validate", ["api", "--seed", str(seed()), "--fuzz", str(300 if q else 3000)], inputs=cases)
+
+
+@check("C17")
+def c17(ctx):
+    ctx.level = "exploration"
+    ctx.assumptions += ["decision-table model: TLC enumerates abstract classes of presented credentials / client certificates and server options; one concrete instance per class (tokens of 56 characters; certificates generated with crypto/x509, ECDSA P-256). x509 chain building itself is trusted",
+                        "token cases run against servers built by the real createAPIServer wiring with the services registered as cmd/leader.go and cmd/follower.go do, in child processes; certificate cases are real TLS 1.2 / 1.3 handshakes over loopback TCP against security.TLSInfo.ServerConfig()",
+                        "a lower-case 'bearer' scheme with the right token and client-cert-auth without a trusted CA are left open (not pinned by the property)"]
+    cases = ctx.design("MC_Access", "MC_Access.cfg", workers=1)
+    ctx.notes["distinct_nontrivial"] = len(set(cases))
+    ctx.notes["rule"] = "one case per class of MC_Access: (service, method incl. server- and client-streaming, token configured?, presented credential, leader/follower) and (server TLS options, client certificate)"
+    ctx.gv("access-cases", "Trace_Access", ["access"], inputs=cases)
